@@ -6,7 +6,7 @@ base = json.load(open("/root/.vp/BASELINE.json"))
 want = set(base["stable_pass"])
 with tempfile.TemporaryDirectory() as d:
     x = os.path.join(d, "j.xml")
-    env = dict(os.environ); env.pop("XITORCH_VERIF", None)
+    env = dict(os.environ); env.pop("XITORCH_VERIF", None); env["OMP_NUM_THREADS"] = "2"
     subprocess.run(["/venv/bin/python", "-m", "pytest", "-q", "-p", "no:cacheprovider", "--timeout=900",
                     "--continue-on-collection-errors", "-n", "8", "--junitxml=" + x] if os.environ.get("XDIST") else
                    ["/venv/bin/python", "-m", "pytest", "-q", "-p", "no:cacheprovider", "--timeout=900",
